@@ -128,7 +128,7 @@ func init() {
 		Assumptions: []string{
 			"the generator's Common mode defines the shared subset: no PHP 7-only syntax, no $$a[..], no member access/call/dimension after a static member, no call results as callee, no class-reference chains after new, no goto (recorded divergences)",
 		},
-		Plan: func(p core.Params) int { return p.Pick(40000, 1500000) },
+		Plan: func(p core.Params) int { return p.Pick(100000, 1500000) },
 		Run:  func(c *core.Ctx, idx int) { c10Case(c, idx) },
 		RunWitness: func(c *core.Ctx, w core.Witness) {
 			if c10Compare(c, w.Src, "5.6", "7.4", "|witness:"+w.Cfg["tag"]) {
